@@ -65,7 +65,7 @@ def _finish(prop, tier, seed, res, skipped, rule, bound, assumptions, extra_cov=
             v = dict(v)
             v["replay_kind"] = replay_kind
             path = vlib.write_replay(prop, shown, v)
-            if shown < 40:
+            if shown < 12:
                 lane = v.get("lane", 0)
                 ins = [x[lane] if isinstance(x, list) and len(x) > lane else x for x in v.get("in", [])]
                 print("VIOLATION property=%s replay=%s  # %s<%s> on %s param=%s lane=%s in=%s expected=%s observed=%s" % (
@@ -222,6 +222,116 @@ class MathCheck:
         return 0 if p.returncode == 0 else 2
 
 
+class Composite:
+    """A property decided by several explorer runs whose results are merged into one evidence file."""
+
+    def __init__(self, parts, rule, bound, assumptions=None):
+        self.parts = parts  # list of (label, callable(prop, tier, seed) -> (result dict, skipped archs) or None on failure)
+        self.rule = rule
+        self.bound = bound
+        self.assumptions = (assumptions or []) + ASSUME_COMMON
+
+    def run(self, prop, tier, seed):
+        t0 = time.time()
+        merged = {"states": 0, "transitions": 0, "distinct_nontrivial": 0, "violations_unknown": 0, "violations_total": 0, "exhaustive": True,
+                  "samples": [], "notes": [], "per_op": {}, "by_finding": {}, "by_key": {}, "violations": [], "per_arch_points": {}, "architectures": [],
+                  "vacuous_ops": [], "saturated": [], "skipped_by_precondition": 0, "disagreements_checked": 0}
+        skipped_all = []
+        for label, fn in self.parts:
+            r = fn(prop, tier, seed)
+            if r is None:
+                print("[vcheck] %s: part %s failed to run" % (prop, label))
+                return 2
+            res, skipped = r
+            skipped_all = skipped
+            for k in ("states", "transitions", "distinct_nontrivial", "violations_unknown", "violations_total", "skipped_by_precondition", "disagreements_checked"):
+                merged[k] += int(res.get(k, 0))
+            merged["exhaustive"] = merged["exhaustive"] and bool(res.get("exhaustive", False))
+            merged["samples"] += res.get("samples", [])[:6]
+            merged["notes"] += ["[%s] %s" % (label, n) for n in res.get("notes", [])]
+            for k, v in res.get("per_op", {}).items():
+                merged["per_op"]["%s:%s" % (label, k)] = v
+            for k in ("by_finding", "by_key", "per_arch_points"):
+                for kk, vv in res.get(k, {}).items():
+                    merged[k][kk] = merged[k].get(kk, 0) + vv
+            for v in res.get("violations", []):
+                v = dict(v)
+                v["part"] = label
+                merged["violations"].append(v)
+            merged["vacuous_ops"] += res.get("vacuous_ops", [])
+            merged["saturated"] += res.get("saturated", [])
+            merged["architectures"] = res.get("architectures", merged["architectures"])
+        merged["wall_s"] = time.time() - t0
+        bound = self.bound[tier] if isinstance(self.bound, dict) else self.bound
+        return _finish(prop, tier, seed, merged, skipped_all, self.rule, bound, self.assumptions, {"disagreements_checked": merged["disagreements_checked"]}, replay_kind="composite")
+
+    def replay(self, prop, path):
+        v = json.load(open(path))
+        part = v.get("part")
+        for label, fn in self.parts:
+            if label == part and hasattr(fn, "replay"):
+                return fn.replay(prop, path)
+        print("[vcheck] no replay for part %s" % part)
+        return 2
+
+
+class DrivePart:
+    """xvdrive run with explicit arguments, used as a part of a Composite."""
+
+    def __init__(self, harnesses, args, probed=()):
+        self.harnesses = harnesses
+        self.args = list(args)
+        self.probed = set(probed)
+
+    def __call__(self, prop, tier, seed):
+        run, skipped = vlib.runnable_archs()
+        mods = []
+        for h in self.harnesses:
+            if h in self.probed:
+                res, errs, _ = vlib.build_modules_probed(h, run)
+            else:
+                res, errs = vlib.build_modules(h, run)
+            if errs:
+                for a, log in errs.items():
+                    sys.stderr.write("---- build of harness %s for %s failed ----\n%s\n" % (h, a, log[-3000:]))
+                return None
+            mods += [res[a] for a in run]
+        drv = vlib.build_driver("xvdrive")
+        os.makedirs(vlib.OUT, exist_ok=True)
+        out = os.path.join(vlib.OUT, "%s.%s.drive.json" % (prop, tier))
+        known = ",".join(f["id"] for f in vlib.open_findings(prop))
+        cmd = [drv, "--prop", prop, "--tier", tier, "--seed", str(seed), "--out", out, "--threads", str(vlib.NPROC), "--deadline", "3000"] + self.args
+        if known:
+            cmd += ["--known", known]
+        for m in mods:
+            cmd += ["--mod", m]
+        if subprocess.run(cmd).returncode != 0:
+            return None
+        return json.load(open(out)), skipped
+
+
+class MathPart:
+    def __init__(self, types, args):
+        self.mc = MathCheck(types, "", "", extra_args=args)
+
+    def __call__(self, prop, tier, seed):
+        drv, mods, run, skipped = self.mc.build(prop)
+        os.makedirs(vlib.OUT, exist_ok=True)
+        out = os.path.join(vlib.OUT, "%s.%s.math.json" % (prop, tier))
+        known = ",".join(f["id"] for f in vlib.open_findings(prop))
+        cmd = [drv, "--prop", prop, "--tier", tier, "--seed", str(seed), "--out", out, "--threads", str(vlib.NPROC), "--types", self.mc.types, "--deadline", "3000"] + self.mc.extra_args
+        if known:
+            cmd += ["--known", known]
+        for m in mods:
+            cmd += ["--mod", m]
+        if subprocess.run(cmd).returncode != 0:
+            return None
+        return json.load(open(out)), skipped
+
+    def replay(self, prop, path):
+        return self.mc.replay(prop, path)
+
+
 RULE_MATH = ("every point of the stated argument space is evaluated twice, once among neighbouring arguments and once in a strided order where "
              "the lanes of one batch come from 16 distant parts of the space, by every architecture's real kernel; each lane result is judged "
              "against the exact value (ulp bound inside the normal range, graceful-degradation predicate outside); states = arguments x orders; "
@@ -260,6 +370,15 @@ CHECKS = {
     "C11": MathCheck("double", RULE_MATH, {
         "quick": "per function: every double binade x 256 mantissa patterns, +-64-ulp windows at 70 switch points, k*pi/2 +- 3 ulp for k <= 3000 and a geometric ladder up to 2^900, k/2 +- 2 ulp up to 180, special lattice, seed symbols; thinned lattice^2 for the binary functions; both stream orders; 4.5 ulp for the exp/log/trig/hyperbolic/inverse/cbrt/hypot/atan2 families, DESIGN.md 8.2 for erf/erfc/tgamma/lgamma; nothing is claimed between lattice points",
         "thorough": "4096 mantissa patterns per binade, +-256-ulp windows, k <= 20000"}),
+    "C12": MathCheck("float,double", "(a) every special operand of the table transcribed from the property (NaN arguments, domain errors, poles, limits, exact identities) is placed in every lane position among every companion class (31 constant classes + a rotation of all) and the lane's result class is checked; (b) relations are checked bit-for-bit over the whole unary argument space on mirrored batches: odd/even symmetry, sincos == (sin, cos), fabs == abs, rint == nearbyint, pow(x, +-0) == 1; states = table placements + relation points; transitions = lane results judged", {
+        "quick": "table: about 190 (function, operand) entries x lanes x 32 companion classes per architecture; relations: the C10/C11 quick unary spaces (every binade x 2048 / 256 mantissas, switch-point windows, specials); all 22 architectures",
+        "thorough": "relations on all 2^32 float32 arguments and the C11 thorough lattice"}, extra_args=["--special"]),
+    "C13": Composite([
+        ("exact", DrivePart(["int", "fp", "cmp", "conv"], ["--placement", "--props", "C01,C02,C03,C06,C07,C08"])),
+        ("math", MathPart("float,double", ["--placement"])),
+    ], "every (subject operand tuple, lane position k, companion class) triple is executed next to the broadcast batch of the same subject: for the exact operations lane k must be bit-identical to lane 0 of the broadcast result and all broadcast lanes identical; for the elementary functions lane k must stay in the same special-value class as the broadcast result and within the function's accuracy bound; states = triples; transitions = lane comparisons", {
+        "quick": "exact: every element-wise operation of C01/C02/C03/C06/C07/C08 (about 960 operation/type instances), subject tuples from a 13-symbol boundary alphabet per operand (64 / 8^2 / 5^3 tuples), every lane, companions = each alphabet symbol in all other lanes + a rotation of all symbols; elementary functions: about 500 subject values (switch-point windows, specials, binade edges, gamma poles) x every lane x 32 companion classes chosen on both sides of every any()/all() threshold plus NaN/inf/huge/tiny; all 22 architectures",
+        "thorough": "same spaces (complete for their definition)"}),
     "C14": MathCheck("float,double", RULE_MATH + "; for C14 the judged quantity is the number of iterations of the data-dependent loops of one call (hook XSIMD_VERIF_LOOP_TICK) against the frozen constants of DESIGN.md 8.3, a call is aborted and reported after 1000 iterations, and a watchdog reports any kernel call that does not return within 30 s", {
         "quick": "the C10 and C11 quick argument spaces of every elementary function, both stream orders (so that lanes of very different magnitude share a batch), all 22 architectures",
         "thorough": "all 2^32 float32 arguments of every unary function and the C11 thorough lattice"}, extra_args=["--ticks"]),
